@@ -73,6 +73,20 @@ func (p *packetIDLimiter) pollPacketIDs(max uint16) (id []packets.PacketID) {
 	return id
 }
 
+// waitFree blocks until fewer than limit packet ids are in use (or the limiter has been closed) and returns how many
+// more may be put to use. ok is false if the limiter is closed.
+func (p *packetIDLimiter) waitFree() (n uint16, ok bool) {
+	p.cond.L.Lock()
+	defer p.cond.L.Unlock()
+	for p.used >= p.limit && !p.exit {
+		p.cond.Wait()
+	}
+	if p.exit {
+		return 0, false
+	}
+	return p.limit - p.used, true
+}
+
 // release marks the given id list as unused
 func (p *packetIDLimiter) release(id packets.PacketID) {
 	p.cond.L.Lock()
